@@ -294,6 +294,58 @@ def lda_basis_case(n_basis):
   return fn
 
 
+def dist_diff_case():
+  """the table that drives the whole optimisation: entry (t, b) is the squared length of the positive difference minus that of the
+  negative difference of triplet t along basis element b, so that sum_b w_b * table[t, b] = d_M(a, p)^2 - d_M(a, n)^2 for M = sum_b w_b b b^T
+  -- for an ARBITRARY basis (rows need not have unit norm)"""
+  def fn(ctx):
+    S = _scml()
+    X = ctx.real('X', (4, 2))
+    B = ctx.real('B', (2, 2))
+    trip = np.array([[0, 1, 2], [1, 0, 3], [2, 3, 0], [0, 1, 3], [3, 2, 1]])
+    est = S.SCML()
+    T = est._compute_dist_diff(trip, X.copy(), B.copy())
+    ctx.require('one_row_per_triplet_one_column_per_basis_element', ctx.cond(np.shape(T) == (len(trip), 2)))
+    w = ctx.real('w', 2)
+    for t, (a, p, n) in enumerate(trip):
+      for b in range(2):
+        pos = sum(B[b, c] * (X[a, c] - X[p, c]) for c in range(2))
+        neg = sum(B[b, c] * (X[a, c] - X[n, c]) for c in range(2))
+        ctx.require('entry_is_positive_minus_negative_squared_length_along_the_basis_element', ctx.eq(T[t, b], pos * pos - neg * neg, tol=1e-9))
+  return fn
+
+
+def batch_draw_case():
+  """the mini-batches of the documented scheme: max_iter rows of batch_size indices drawn with replacement from the triplets, whatever
+  the number of triplets (fewer triplets than batch_size included) -- observed at the random generator (concrete data, sampled)"""
+  def fn(ctx):
+    S = _scml()
+    rs = np.random.RandomState(4)
+    X = rs.randn(9, 2)
+    Bs = np.array([[1.0, 0.0], [0.0, 1.0], [0.6, 0.8], [0.8, -0.6]])
+    for ntrip, bsz, mi in ((4, 10, 6), (12, 10, 5), (3, 3, 4), (5, 1, 7)):
+      trip = np.array([rs.choice(9, 3, replace=False) for _ in range(ntrip)])
+      calls = []
+
+      class Spy(np.random.RandomState):
+        def randint(self, low, high=None, size=None, dtype=int):
+          calls.append((low, high, size))
+          return np.random.RandomState.randint(self, low, high, size, dtype)
+      old = S.check_random_state
+      S.check_random_state = lambda seed: Spy(3)
+      try:
+        with warnings.catch_warnings():
+          warnings.simplefilter('ignore')
+          S.SCML(basis=Bs.copy(), n_basis=4, batch_size=bsz, max_iter=mi, output_iter=mi, random_state=3).fit(X[trip])
+      finally:
+        S.check_random_state = old
+      # how the draws are grouped into calls is an implementation detail: batch_size indices per iteration, all over the triplets
+      total = sum(int(np.prod(np.atleast_1d(c[2]))) if c[2] is not None else 1 for c in calls)
+      ok = len(calls) >= 1 and all((c[0] == 0 and c[1] == ntrip) or (c[1] is None and c[0] == ntrip) for c in calls) and total == mi * bsz
+      ctx.require('mini_batches_are_max_iter_rows_of_batch_size_draws_over_the_triplets', ctx.cond(ok), detail='%d triplets, batch_size %d, max_iter %d: %r' % (ntrip, bsz, mi, calls[:2]))
+  return fn
+
+
 def cases(tier, seed):
   Q, T = ('quick', 'thorough'), ('thorough',)
   out = []
@@ -320,6 +372,11 @@ def cases(tier, seed):
   out.append(case('diffs_basis_n3', diffs_basis_case(3), FUNCS, 'n_basis=3 (truncated last round)', cost=30, validate=6))
   out.append(case('lda_basis_n3', lda_basis_case(3), FUNCS, 'lda generator with k-means / LDA stubbed (scalings arbitrary), n_basis=3: truncated tail block', cost=5, validate=3))
   out.append(case('lda_basis_n4', lda_basis_case(4), FUNCS, 'n_basis=4: aligned blocks', cost=5, validate=3))
+  out.append(case('dist_diff_table', dist_diff_case(), FUNCS,
+                  '4 arbitrary points in R^2, arbitrary 2x2 basis (rows of any norm), 5 triplets sharing pairs: the distance-difference table', cost=3, validate=6))
+  out.append(case('batch_draws_sampled', batch_draw_case(), FUNCS,
+                  'SCML.fit with an array basis on 3..12 triplets, batch_size 1..10 (also larger than the number of triplets): the index table requested from the generator '
+                  '(concrete, sampled; not solver-decided)', concrete_only=True, validate=1, cost=2))
   return out
 
 
